@@ -1,10 +1,12 @@
 import Pms.Model.PbcDriver
+import Pms.Model.GenDriver
 /-! `pmsdriver`: one operation per input line, one result per output line. -/
 open Pms Pms.Io
 
 def dispatch (line : String) : String :=
   match words line with
   | "pbc" :: rest => (Pms.Pbc.handlePbc rest).getD "bad-op"
+  | "pairf" :: rest => (Pms.GenDriver.handlePairF rest).getD "bad-op"
   | "ping" :: _ => "pong"
   | _ => "bad-op"
 
